@@ -43,19 +43,9 @@ func (vm *VM) runFunc(fn *Function, vars []reflect.Value) error {
 			}
 			return err
 		}
-		// p can be followed by the other panics of a function called by a
-		// native function.
-		last := p
-		for last.next != nil {
-			last = last.next
-		}
-		last.next = vm.panic
-		vm.panic = p
-		if len(vm.calls) == 0 {
+		if !vm.recordPanic(p) {
 			break
 		}
-		vm.calls = append(vm.calls, callFrame{cl: callable{fn: vm.fn}, renderer: vm.renderer, fp: vm.fp, status: panicked})
-		vm.fn = nil
 	}
 	if stop != nil {
 		close(stop)
@@ -105,14 +95,30 @@ func (vm *VM) runBody() (Addr, bool) {
 			// The execution has been stopped: runFunc returns the error.
 			panic(err)
 		}
-		p.next = vm.panic
-		vm.panic = p
-		if len(vm.calls) == 0 {
+		if !vm.recordPanic(p) {
 			return maxUint32, false
 		}
-		vm.calls = append(vm.calls, callFrame{cl: callable{fn: vm.fn}, renderer: vm.renderer, fp: vm.fp, status: panicked})
-		vm.fn = nil
 	}
+}
+
+// recordPanic records the panic p and reports whether there are calls that
+// can have deferred calls to execute: in this case the panicked call is added
+// to vm.calls and vm.fn is set to nil, so that the execution continues with
+// nextCall. p can be followed by the other panics of a function called by a
+// native function.
+func (vm *VM) recordPanic(p *PanicError) bool {
+	last := p
+	for last.next != nil {
+		last = last.next
+	}
+	last.next = vm.panic
+	vm.panic = p
+	if len(vm.calls) == 0 {
+		return false
+	}
+	vm.calls = append(vm.calls, callFrame{cl: callable{fn: vm.fn}, renderer: vm.renderer, fp: vm.fp, status: panicked})
+	vm.fn = nil
+	return true
 }
 
 func (vm *VM) runBodyRecoverable() (addr Addr, breakOut bool, err error) {
